@@ -147,6 +147,10 @@ func genTelnet(r *Rng, tag string, n int) []pcmd {
 	out = append(out, pcmd{Data: []byte(pass + "\r\n"), Want: []wantEv{{Field: "telnet.password", Value: pass, More: map[string]string{"telnet.username": user}}}, Note: "password"})
 	for i := 0; i < n; i++ {
 		line := fmt.Sprintf("%s%d %s", tag, i, r.word(0, 10))
+		if r.Chance(0.4) {
+			// multi-byte characters: a segment boundary may fall inside one of them
+			line += " " + r.Pick([]string{"p\u00e4ssw\u00f6rd", "\u20ac 5", "/tmp/\u00fcn\u00efcode.txt", "\u65e5\u672c\u8a9e", "caf\u00e9 \U0001f600 x", "\u00e9"})
+		}
 		line = strings.TrimRight(line, " ")
 		out = append(out, pcmd{Data: []byte(line + "\r\n"), Want: w1("telnet.command", line), Note: line})
 	}
